@@ -426,6 +426,14 @@ def generated_paths():
         if v >= 2:
             al += ['EMPTY_LIST;NONE;APPEND;DUP;TUPLE1;APPEND', 'MARK;NONE;LIST;DUP;TUPLE1;TUPLE1;APPEND', 'EMPTY_DICT;NONE;NONE;SETITEM;DUP;TUPLE1;NONE;SETITEM',
                    'GLOBAL;EMPTY_TUPLE;REDUCE;NONE;TUPLE1;BUILD;DUP;TUPLE1;BUILD']
+        # GARBAGE cycles amid volume: a cycle whose only owners are its own cells (popped off the stack at once), before, between
+        # and after many more in-place modifications of other containers - whatever book-keeping the release of cycles rests on
+        # (a registry that is pruned, compacted, capped or re-hashed as it grows) meets it here; S7 requires 0 bytes live after drop
+        mod = 'EMPTY_LIST;NONE;APPEND;POP'
+        for nmod in (15, 33, 130):
+            for cyc in ['EMPTY_LIST;DUP;APPEND;POP', 'EMPTY_DICT;DUP;NONE;SETITEM;POP'] + (['EMPTY_LIST;DUP;TUPLE1;APPEND;POP'] if v >= 2 else []):
+                al += [';'.join([cyc] + [mod] * nmod + ['NONE']), ';'.join([mod] * nmod + [cyc] + [mod] * nmod + ['NONE']),
+                       ';'.join([mod] * (nmod // 2) + [cyc] * 3 + [mod] * (nmod // 2) + [cyc, 'NONE'])]
         if v < 2:
             al = [a for a in al if 'TUPLE2' not in a]       # TUPLE2 is a protocol-2 opcode
         if v < 1:
@@ -1070,12 +1078,14 @@ def run_s6(seed, tier, log):
     os.makedirs(tmp)
     props, specs, nrun = [], {}, 0
 
-    def fail(cid, what, detail):
-        props.append({'id': cid, 'prop': 'C13', 'detail': detail})
+    def fail(cid, what, detail, prop='C13'):
+        props.append({'id': cid, 'prop': prop, 'detail': detail})
         specs[cid] = what
     fronts = []      # (case id, what was run, vector id or case line, bytes written/returned): the single-output oracles run over these
     vecs = gen_s6_vectors(seed, tier)
     vecs.append(dict(id='freg', protocol='2', seed=3, min=None, max=None, mutators=['bitflip'], rate=None, unsafe=0, ext=0, buf=0))
+    # the options of the one LARGE batch below
+    vecs.append(dict(id='fbig', protocol=str(2 + seed % 4), seed=77 + seed, min=1, max=3, mutators=['offbyone', 'bitflip'], rate=0.5, unsafe=0, ext=1, buf=0))
     vp = os.path.join(tmp, 'vectors.txt')
     open(vp, 'w').write('\n'.join(vec_line(v) for v in vecs) + '\n')
     p = subprocess.run([DRIVER, 'front', vp], stdout=subprocess.PIPE, stderr=subprocess.PIPE, text=True, env=ENV, timeout=600)
@@ -1141,6 +1151,40 @@ def run_s6(seed, tier, log):
                         fail(v['id'] + '-batch', what, 'file %s differs from the library bytes' % f)
                         break
             shutil.rmtree(dd, ignore_errors=True)
+        if j == 1:
+            # a LARGE batch (the CLI's default is 10000 samples): how a parallel iterator splits the index range depends on the
+            # number of workers and on work stealing only once there is enough to split; every file must still be the library's
+            # pickle for these options, whatever the worker count
+            big = 1500 if tier == 'quick' else 10000
+            vb = [x_ for x_ in vecs if x_['id'] == 'fbig'][0]
+            eb = expect.get('fbig')
+            big_first = None
+            for ti, threads in enumerate((1, 2, 5, 16, 16)):
+                dd = os.path.join(tmp, 'big_%d_%d' % (threads, ti))
+                argv = [PFBIN, '--dir', dd, '--samples', str(big)] + vec_argv(vb)
+                q = subprocess.run(argv, stdout=subprocess.PIPE, stderr=subprocess.PIPE, timeout=600, env=dict(envb, RAYON_NUM_THREADS=str(threads)))
+                nrun += 1
+                what = 'cli batch (RAYON_NUM_THREADS=%d): pickle-fuzzer --dir D --samples %d %s' % (threads, big, ' '.join(vec_argv(vb)))
+                files = set(os.listdir(dd)) if os.path.isdir(dd) else set()
+                if q.returncode != 0:
+                    fail('fbig-batch', what, 'exit status %d' % q.returncode)
+                elif files != set('%d.pkl' % i for i in range(big)):
+                    fail('fbig-batch', what, '%d files written, expected 0.pkl .. %d.pkl' % (len(files), big - 1))
+                else:
+                    content = {f_: open(os.path.join(dd, f_), 'rb').read() for f_ in files}
+                    if eb is not None:
+                        bad = [f_ for f_ in sorted(files, key=lambda x_: int(x_[:-4])) if content[f_] != eb]
+                        if bad:
+                            fail('fbig-batch', what, '%d of %d files differ from the library bytes for these options (first: %s)' % (len(bad), big, bad[0]))
+                    # C07: the same command under another number of workers (and once more under the same number) writes the same files
+                    if big_first is None:
+                        big_first = (threads, content)
+                    else:
+                        bad = [f_ for f_ in sorted(files, key=lambda x_: int(x_[:-4])) if content[f_] != big_first[1].get(f_)]
+                        if bad:
+                            fail('fbig-workers', what, '%d of %d files differ from the ones the same command wrote with RAYON_NUM_THREADS=%d (first: %s): '
+                                 'the output depends on how the batch is split over workers' % (len(bad), big, big_first[0], bad[0]), prop='C07')
+                shutil.rmtree(dd, ignore_errors=True)
         if j % 3 == 0:
             dd = os.path.join(tmp, 'fail_%s' % v['id'])
             os.makedirs(os.path.join(dd, '1.pkl'))           # a directory where a file should be written
@@ -1619,6 +1663,22 @@ def gen_s5_cases(seed, tier):
         hist = ['s:%d' % rng.below(1 << 32), 's:%d' % rng.below(1 << 32), 'c:%s=0' % which] + ['s:%d' % (i * 8 + j) for j in range(6)]
         cases.append('%s hist=%s' % (spec('h%d' % k, v, 60, 300, RATES['0.1'], on['unsafe'], on['ext'], on['buf'], [], 'none'), ';'.join(hist)))
         k += 1
+    # LONG histories on one generator (C08 speaks of any history): whatever a generator accumulates over its lifetime - a
+    # counter, a budget, a table that fills up - shows only after enough volume; every call is still compared with the model's
+    # fresh-state answer.  Mutators at rate 1 so that the mutation paths see the volume too.
+    for i in range(6 if tier == 'quick' else 36):
+        v = (3, 4, 5, 2, 1, 0)[i % 6]
+        ncalls = (25, 40)[i % 2] if tier == 'quick' else (60, 120, 200)[i % 3]
+        muts = list(SAFE_MUTS) if i % 3 != 2 else []
+        unsafe = 1 if i % 6 == 4 else 0
+        if unsafe:
+            muts = muts + list(UNSAFE_MUTS)
+        hist = []
+        for j in range(ncalls):
+            r = rng.below(8)
+            hist.append('r' if r == 0 and j + 1 < ncalls else ('b:' + rand_bytes(rng, 300).hex()) if r < 3 else 's:%d' % rng.below(1 << 32))
+        cases.append('%s hist=%s' % (spec('h%d' % k, v, 60, 300, RATES['1'], unsafe, int(i % 4 == 1), int(i % 4 == 3), muts, 'none'), ';'.join(hist)))
+        k += 1
     return cases
 
 
@@ -1761,6 +1821,26 @@ def gen_s8_cases(seed, tier):
               [a + b + c_ for a in 'CO' for b in 'TL' for c_ in 'DT'] + ['M' + a + b for a in cont for b in cont]
         for i, st in enumerate(sts):
             add(v, st, memos[i % 2], rows[v] if i % 3 == 0 else [], srcs[1], ext=1, buf=int(v == 5), extra=' fill=1 rebuild=8')
+    # aliasing: DUP leaves ONE cell in two slots.  The same small states with every run of equal kinds sharing a cell
+    # (`alias=1`): every opcode from them, tails included - a simulation step that borrows, moves out of or compares its
+    # operands cell-wise behaves differently only here
+    nm = [c_ for c_ in full if c_ != 'M']
+    for v in range(6):
+        sts = [a + a for a in nm] + [a + a + a for a in nm] + [b + a + a for a in nm for b in 'MLDS'] + [a + a + b for a in nm for b in 'MTI'] + \
+              ['M' + a + a + a for a in 'SILT'] + ['L' + 'M' + a + a for a in nm]
+        for i, st in enumerate(sts):
+            add(v, st, memos[i % 2], rows[v], srcs[1], unsafe=int(i % 7 == 0), ext=1, buf=int(v == 5), extra=' alias=1' + (' fill=1' if i % 2 else ''))
+    # LARGE memo tables (a default-sized pickle never has more than a few dozen entries): the index formats change with the
+    # size - one byte up to 255, four bytes or text beyond, three-digit text from 100 - and so may whatever decodes them again
+    memo_ops = ['PUT', 'BINPUT', 'LONG_BINPUT', 'MEMOIZE', 'GET', 'BINGET', 'LONG_BINGET', 'DUP', 'POP']
+    big_srcs = [srcs[1], 'ff' * 40, '00' * 40, '63' * 40, 'e7030000' * 10]
+    for v in range(6):
+        for size in (10, 99, 100, 101, 255, 256, 257, 999, 1000, 1001) if tier == 'quick' else (10, 99, 100, 101, 254, 255, 256, 257, 300, 999, 1000, 1001, 4096, 10000):
+            memo = ','.join('%d:%s' % (i, 'ISLD'[i % 4]) for i in range(size))
+            for si, st in enumerate(('S', 'L', 'MI', '-')):
+                for bi, bsrc in enumerate(big_srcs if si == 0 else big_srcs[:2]):
+                    add(v, st, memo, [o for o in memo_ops if o in rows[v]], bsrc, unsafe=int(bi == 4), ext=0, buf=0,
+                        muts=['memoindex:%d' % int(bi == 4), 'offbyone'] if bi >= 3 else None)
     # unsafe mode relaxes guards (STACK_GLOBAL): depth <= 2 again
     for v in (4, 5):
         for st in stacks:
@@ -1980,6 +2060,67 @@ def shard_trace(tpath, n):
     for o in outs:
         o.close()
     return ['%s.%d' % (tpath, i) for i in range(n)]
+
+
+def fuzz_search(prop, broken, seed, tier, log, n=None):
+    """Last resort of the search for a failing input: an obligation or a correspondence broke, and neither the sampled cases
+    nor the steered searches show the property failing on a concrete output.  The cases named in the broken correspondences
+    tell WHERE implementation and model part ways (protocol, flags, mutator list); run the implementation many more times
+    around those configurations - fresh seeds, the rates 1 / 0.5 / 0.25 next to the case's own, every rotation of its mutator
+    list (the first applicable mutator wins), larger opcode budgets - and judge every output with the extracted oracles alone
+    (no trace comparison: that is what makes volume affordable).  Random search: it can only FIND an input, never excuse one."""
+    n = n or (24000 if tier == 'quick' else 200000)
+    bases, seen = [], set()
+    for what, detail in broken:
+        for m in re.finditer(r'id=\S+ (v=\d[^|\]]*)', detail):
+            kvs = dict(w.split('=', 1) for w in m.group(1).split() if '=' in w)
+            if not all(k in kvs for k in ('v', 'unsafe', 'ext', 'buf', 'muts', 'rate')):
+                continue
+            sig = tuple(kvs[k] for k in ('v', 'unsafe', 'ext', 'buf', 'muts'))
+            if sig not in seen and len(bases) < 6:
+                seen.add(sig)
+                bases.append(kvs)
+    if not bases:
+        # nothing to aim at (a proof obligation broke, no case named): the default grid
+        for v in range(6):
+            bases.append(dict(v=str(v), unsafe=str(v % 2), ext='1', buf=str(int(v == 5)), muts=','.join(SAFE_MUTS[:5] + (UNSAFE_MUTS if v % 2 else SAFE_MUTS[5:])), rate=RATES['0.5']))
+    rng = SplitMix64(seed ^ 0xF022)
+    cases = []
+    for i in range(n):
+        b = bases[i % len(bases)]
+        muts = [x for x in b['muts'].split(',') if x and x != '-']
+        if muts:
+            r = rng.below(len(muts))
+            muts = muts[r:] + muts[:r]
+            if rng.below(5) == 0:
+                muts = muts[:1 + rng.below(len(muts))]
+        rate = rng.choice([b['rate'], RATES['1'], RATES['0.5'], RATES['0.25'] if '0.25' in RATES else RATES['0.5']])
+        mn, mx = rng.choice([(60, 300), (200, 400), (20, 40), (400, 800)])
+        cases.append('id=w.z%d v=%s min=%d max=%d rate=%s unsafe=%s ext=%s buf=%s muts=%s src=seed:%d' % (
+            i, b['v'], mn, mx, rate, b['unsafe'], b['ext'], b['buf'], ','.join(muts) or '-', rng.below(1 << 48)))
+    t0 = time.time()
+    tmp = os.path.join(BUILD, 'fuzz')
+    shutil.rmtree(tmp, ignore_errors=True)
+    os.makedirs(tmp)
+    shards, procs = 12, []
+    for k in range(shards):
+        cp, tp = os.path.join(tmp, 'c%d.txt' % k), os.path.join(tmp, 't%d.txt' % k)
+        open(cp, 'w').write('\n'.join(cases[k::shards]) + '\n')
+        procs.append((tp, subprocess.Popen('%s results %s 1 > %s 2>/dev/null && %s oracles %s' % (HBIN, cp, tp, DRIVER, tp), shell=True, stdout=subprocess.PIPE,
+                                           stderr=subprocess.STDOUT, text=True, env=ENV)))
+    props, specs = [], {}
+    byid = {c.split()[0][3:]: c for c in cases}
+    for tp, p in procs:
+        out, _ = p.communicate(timeout=3000)
+        for pr in parse_verdicts(out)['props']:
+            if pr['prop'] == prop:
+                pr['detail'] += ' (found by the oracle-only random search around the configurations of the broken correspondence)'
+                props.append(pr)
+                specs[pr['id']] = byid.get(pr['id'], pr['id'])
+    shutil.rmtree(tmp, ignore_errors=True)
+    log('search: %d further implementation runs around %d configuration(s) of the broken obligations, judged by the oracles alone: %d show %s failing, %.1fs' % (
+        n, len(bases), len(props), prop, time.time() - t0))
+    return props, specs
 
 
 def parse_verdicts(text):
